@@ -16,6 +16,7 @@ import ast
 
 from ..cfg import build_cfg
 from ..dataflow import Inliner
+from ..derived import CacheResolver
 from ..loader import AnalysisError, ClassInfo, FuncInfo, Program, norm, walk_no_nested
 from ..normalize import flat
 from ..report import Ledger
@@ -79,6 +80,8 @@ def run(prog: Program, L: Ledger) -> None:
         vocab.symbols["ref"] = ref
         t = Translator(vocab)
         t.module = f.module
+        caches = CacheResolver(prog, afb, vocab, lambda _v=vocab: Translator(_v))
+        t.hooks.append(caches.hook)
         try:
             r = t.run_block(flat(prog, f, afb).body())
         except Unsupported as exc:
@@ -89,6 +92,7 @@ def run(prog: Program, L: Ledger) -> None:
         unknown = [k for k, s in vocab.unknown.items() if s in u.free_symbols]
         if unknown:
             raise AnalysisError(f"{f.qualname}: update function depends on unrecognised sources {unknown}")
+        caches.check(L, "R1", f"{f.qualname}", "delta is no longer the midpoint at the (current) reference variance, while the no-committee fallback still uses the current one")
         cons = f"{f.qualname}"
         u0 = sp.simplify(u.subs(v_, 0))
         L.check(u0 == 1, "R1", f"{cons}[v=0]", f.where, f"update({name})(0) = {u0}, not 1: delta at zero variance is not max_delta", f"variance 0 → delta = min + (max−min)·{u0}", "v=0")
